@@ -58,7 +58,7 @@ RULE = ("argument forms: every integer option (size, num, num_visible / num_hidd
         "(plain and rotated) with the accepted target e_k, on all three state classes with random parameters, against numpy references built "
         "from the parameters (brute-force partial trace, dense np.kron); (d'') negative / beyond-int64 / >62-bit arguments of subspace_vector "
         "and generate_hilbert_space as outcome classes; (e) random data files (N >= 1, n >= 1: one-row and one-column files are ordinary cases "
-        "since F16; one 60 000-row file in the thorough tier; basis "
+        "since F18; one 60 000-row file in the thorough tier; basis "
         "alphabets, many-digit and float32-midpoint targets, comment/blank lines, tabs, CRLF, one-row / one-column / empty / ragged / "
         "unparsable files) written to a temp dir and read back through load_data / load_data_DM (paths positionally, by the documented keywords, "
         "only the files given, or relative to the working directory); (f) extract_refbasis_samples on "
@@ -1136,7 +1136,7 @@ def num_expect(text, ndmin=0):
 def expect_load(case):
     """independent statement of what load_data / load_data_DM must return for the given file texts"""
     f = case["files"]
-    st, s = num_expect(f["samples"], ndmin=2)     # F16: the samples keep their (N, n) shape, also for N = 1 or n = 1
+    st, s = num_expect(f["samples"], ndmin=2)     # F18: the samples keep their (N, n) shape, also for N = 1 or n = 1
     if st == "error":
         return {"error": s}
     items = [{"t": "num", "a": s}]
@@ -1166,7 +1166,7 @@ def expect_load(case):
             if shape(parts["re"]) != shape(parts["im"]):
                 return {"error": "RuntimeError"}
             items.append({"t": "cplx", "re": parts["re"], "im": parts["im"]})
-    for key, nd in (("tr_bases", 2), ("bases", 1)):   # per-sample bases: (N, n) table (F16); list of bases: ndmin=1 (word form of tutorial 3)
+    for key, nd in (("tr_bases", 2), ("bases", 1)):   # per-sample bases: (N, n) table (F18); list of bases: ndmin=1 (word form of tutorial 3)
         if f.get(key) is not None:
             st, p = squeeze_expect(indep_parse(f[key]), ndmin=nd)
             if st == "error":
@@ -1293,7 +1293,7 @@ def load_case(ctx, case, report=None):
 
 def logical_items(case):
     """the tables the generator meant to write, "exactly as written" — stated WITHOUT np.squeeze: an N x n table of samples / per-sample
-    bases is the 2-D array of shape (N, n) whatever N, n >= 1 are (F16); a target matrix is its D x D table (D = 2^n >= 2); the psi
+    bases is the 2-D array of shape (N, n) whatever N, n >= 1 are (F18); a target matrix is its D x D table (D = 2^n >= 2); the psi
     target is the 2 x rows real-pair layout; the list of bases (`bases_path`) is a 2-D table, or — one basis WORD per line, the form of
     tutorial 3 (and, residually, a single row of letters) — the 1-D list of the tokens."""
     lg = case["logical"]
@@ -1640,7 +1640,7 @@ def gen_extract_case(rng):
 def chain_case(ctx, rng):
     """end to end: files -> load_data -> extract_refbasis_samples, vs the logical tables"""
     from qucumber.utils import data as qdata
-    N, n = rng.choice([1, rng.randrange(2, 10), rng.randrange(2, 10)]), rng.choice([1, rng.randrange(2, 6), rng.randrange(2, 6)])   # single sample / single site included (F16)
+    N, n = rng.choice([1, rng.randrange(2, 10), rng.randrange(2, 10)]), rng.choice([1, rng.randrange(2, 6), rng.randrange(2, 6)])   # single sample / single site included (F18)
     stab, stoks = gen_samples(rng, N, n)
     rows = gen_bases_rows(rng, N, n, rng.choice(ALPHABETS), p_allz=rng.choice([0.3, 0.6, 1.0]))
     st, _ = render(rng, stoks)
